@@ -370,6 +370,14 @@ func c16RandomConfig(r *Rng, dir string, id int) *cConfig {
 			seen := map[string]bool{}
 			for j, m := 0, r.Range(0, 2); j < m; j++ {
 				f := q.field()
+				switch r.Intn(4) { // a rewritten field is often also hidden or an environment field
+				case 0:
+					if len(p.Out.Hidden) > 0 {
+						f = p.Out.Hidden[r.Intn(len(p.Out.Hidden))]
+					}
+				case 1:
+					f = p.Out.Env[r.Intn(len(p.Out.Env))]
+				}
 				if !seen[f] {
 					seen[f] = true
 					p.Out.Rewrites = append(p.Out.Rewrites, cRewrite{Field: f, Rewriters: q.rewriters()})
@@ -397,6 +405,13 @@ type c16Muts struct {
 	c      *cConfig
 	list   []c16Mut
 	schema []string
+	refs   []c16FieldSite // every string slot that names a schema field, with its role
+}
+
+// c16FieldSite: one place of the file that names a schema field
+type c16FieldSite struct {
+	site string
+	p    *string
 }
 
 func (m *c16Muts) add(site, kind string, f func()) {
@@ -420,6 +435,7 @@ func sameLenUnknown(s string) string {
 
 // fieldRef: a string slot that must name a schema field.
 func (m *c16Muts) fieldRef(site string, p *string) {
+	m.refs = append(m.refs, c16FieldSite{site, p})
 	orig := *p
 	set := func(v string) func() { return func() { *p = v } }
 	m.add(site, "unknown-field", set("nosuchfield"))
@@ -629,7 +645,12 @@ func (m *c16Muts) big(site string, p *cBig, badRaws []string) {
 	}
 }
 
-func c16AllMuts(c *cConfig) []c16Mut {
+func c16AllMuts(c *cConfig) []c16Mut { return c16Collect(c).list }
+
+// c16FieldSites: the field-naming places of the configuration (pointers into c)
+func c16FieldSites(c *cConfig) []c16FieldSite { return c16Collect(c).refs }
+
+func c16Collect(c *cConfig) *c16Muts {
 	m := &c16Muts{c: c}
 	// schema
 	m.add("schema.fields", "empty-list", func() { c.Fields = nil })
@@ -829,7 +850,7 @@ func c16AllMuts(c *cConfig) []c16Mut {
 			m.big(s+".output.httpTimeout", &p.Out.Dur, []string{"abc", "5", "-"})
 		}
 	}
-	return m.list
+	return m
 }
 
 // ---------------------------------------------------------------- records
@@ -1059,6 +1080,169 @@ func c16Gen(g *Gen) {
 			c16AllMuts(a2)[i].apply()
 			a2.Fields = a2.Fields[:len(a2.Fields)-1]
 			seq("sequence-schema-change", a, a2, a, a2)
+		}
+	}
+	// ---- sites that interact: one field named at two sites with different roles ----
+	chainShapes := []struct {
+		name string
+		l    []cRewriter
+	}{
+		{"empty", nil},
+		{"copy", []cRewriter{{Type: "copy"}}},
+		{"unescape", []cRewriter{{Type: "unescape"}}},
+		{"inline,copy", []cRewriter{{Type: "inline", Field: "log"}, {Type: "copy"}}},
+		{"inline,inline,unescape", []cRewriter{{Type: "inline", Field: "host"}, {Type: "inline", Field: "log"}, {Type: "unescape"}}},
+		{"inline", []cRewriter{{Type: "inline", Field: "log"}}},
+		{"copy,unescape", []cRewriter{{Type: "copy"}, {Type: "unescape"}}},
+		{"unescape,copy", []cRewriter{{Type: "unescape"}, {Type: "copy"}}},
+		{"copy,inline", []cRewriter{{Type: "copy"}, {Type: "inline", Field: "log"}}},
+		{"inline,inline", []cRewriter{{Type: "inline", Field: "log"}, {Type: "inline", Field: "host"}}},
+		{"inline-unknown-field,copy", []cRewriter{{Type: "inline", Field: "nosuchfield"}, {Type: "copy"}}},
+		{"inline-empty-field,copy", []cRewriter{{Type: "inline", Field: ""}, {Type: "copy"}}},
+		{"inline,inline-unknown-field,copy", []cRewriter{{Type: "inline", Field: "log"}, {Type: "inline", Field: "nosuchfield"}, {Type: "copy"}}},
+		{"unknown-type", []cRewriter{{Type: "?gzip"}}},
+	}
+	for _, b := range bases {
+		// (a) rewriteFields on a field of every role (hidden, environment, visible, orchestration key, metric key,
+		//     inlined elsewhere), with every chain shape, as the only entry and next to the existing ones
+		probe := b.mk()
+		for pi := range probe.Pairs {
+			if probe.Pairs[pi].Out.Type != "fluentdForward" {
+				continue
+			}
+			roles := map[string]string{}
+			order := []string{}
+			role := func(name, f string) {
+				if _, ok := roles[name]; !ok && f != "" {
+					roles[name] = f
+					order = append(order, name)
+				}
+			}
+			o := probe.Pairs[pi].Out
+			for i, f := range o.Hidden {
+				role(fmt.Sprintf("hidden[%d]", i), f)
+			}
+			for i, f := range o.Env {
+				role(fmt.Sprintf("environment[%d]", i), f)
+			}
+			for i, f := range probe.Orch.Keys {
+				role(fmt.Sprintf("orchestration-key[%d]", i), f)
+			}
+			for i, f := range probe.MetricKeys {
+				role(fmt.Sprintf("metric-key[%d]", i), f)
+			}
+			role("visible", "log")
+			role("visible-2", "level")
+			// a field that is hidden AND an environment field
+			for _, name := range order {
+				for _, sh := range chainShapes {
+					for _, alone := range []bool{true, false} {
+						if alone && !g.Thorough() && !strings.HasPrefix(name, "hidden") && !strings.HasPrefix(name, "environment") {
+							continue
+						}
+						c := b.mk()
+						out := &c.Pairs[pi].Out
+						entry := cRewrite{Field: roles[name], Rewriters: append([]cRewriter{}, sh.l...)}
+						kept := []cRewrite{}
+						if !alone {
+							for _, rw := range out.Rewrites {
+								if rw.Field != entry.Field {
+									kept = append(kept, rw)
+								}
+							}
+						}
+						out.Rewrites = append(kept, entry)
+						one("interaction-rewrite-"+strings.SplitN(name, "[", 2)[0], c)
+					}
+				}
+			}
+			// the same with the field made hidden and environment at once
+			for _, sh := range chainShapes {
+				c := b.mk()
+				out := &c.Pairs[pi].Out
+				out.Hidden = append(append([]string{}, out.Hidden...), "level")
+				out.Env = append(append([]string{}, out.Env...), "level")
+				out.Rewrites = append(append([]cRewrite{}, out.Rewrites...), cRewrite{Field: "level", Rewriters: append([]cRewriter{}, sh.l...)})
+				one("interaction-rewrite-hidden+environment", c)
+			}
+		}
+		// (b) key lists: every metric key position := every orchestration key position (replace / insert), and
+		//     duplicates inside each list at every pair of positions
+		if probe.Orch.Type == "byKeySet" {
+			nk, nm := len(probe.Orch.Keys), len(probe.MetricKeys)
+			for i := 0; i < nk; i++ {
+				for j := 0; j <= nm; j++ {
+					c := b.mk()
+					if j < nm {
+						c.MetricKeys[j] = c.Orch.Keys[i]
+						one("interaction-metric-key=orchestration-key", c)
+					}
+					c = b.mk()
+					mk := append([]string{}, c.MetricKeys[:j]...)
+					mk = append(mk, c.Orch.Keys[i])
+					c.MetricKeys = append(mk, c.MetricKeys[j:]...)
+					one("interaction-metric-key=orchestration-key", c)
+				}
+				for j := 0; j <= nk; j++ {
+					c := b.mk()
+					if j < nk && j != i {
+						c.Orch.Keys[j] = c.Orch.Keys[i]
+						one("interaction-duplicate-orchestration-key", c)
+					}
+					c = b.mk()
+					ks := append([]string{}, c.Orch.Keys[:j]...)
+					ks = append(ks, c.Orch.Keys[i])
+					c.Orch.Keys = append(ks, c.Orch.Keys[j:]...)
+					one("interaction-duplicate-orchestration-key", c)
+				}
+			}
+			for i := 0; i < nm; i++ {
+				for j := 0; j <= nm; j++ {
+					c := b.mk()
+					if j < nm && j != i {
+						c.MetricKeys[j] = c.MetricKeys[i]
+						one("interaction-duplicate-metric-key", c)
+					}
+					c = b.mk()
+					mk := append([]string{}, c.MetricKeys[:j]...)
+					mk = append(mk, c.MetricKeys[i])
+					c.MetricKeys = append(mk, c.MetricKeys[j:]...)
+					one("interaction-duplicate-metric-key", c)
+				}
+				// an orchestration key position := a metric key
+				for j := 0; j < nk; j++ {
+					c := b.mk()
+					c.Orch.Keys[j] = c.MetricKeys[i]
+					one("interaction-orchestration-key=metric-key", c)
+				}
+			}
+		}
+		// (c) every ordered pair of field-naming sites: the second names the field of the first
+		nsites := len(c16FieldSites(b.mk()))
+		total := nsites * nsites
+		stride := 1
+		if !g.Thorough() && total > 200 {
+			stride = total/200 + 1
+		}
+		for k := 0; k < total; k += stride {
+			ia, ib := k/nsites, k%nsites
+			if ia == ib {
+				continue
+			}
+			c := b.mk()
+			sites := c16FieldSites(c)
+			if *sites[ia].p == *sites[ib].p {
+				continue
+			}
+			*sites[ib].p = *sites[ia].p
+			inner := func(s string) bool {
+				return strings.HasPrefix(s, "transformations") || strings.Contains(s, ".extractions")
+			}
+			if inner(sites[ia].site) && inner(sites[ib].site) {
+				lite("interaction-site-pair", c)
+			} else {
+				one("interaction-site-pair", c)
+			}
 		}
 	}
 	// random valid configurations, each with random substitutions and a sequence
